@@ -483,6 +483,24 @@ pub fn run(tier: Tier) -> i32 {
 }
 
 pub fn replay(case: &Value) -> i32 {
+    let case = if case.get("case").and_then(|c| c.get("edge_oriented")).is_some() { &case["case"] } else { case };
+    if case.get("edge_oriented").is_some() {
+        // an edge-oriented case: every pair of edges of its network is run again, the recorded pair among them
+        let net: Net = match serde_json::from_value(case["net"].clone()) {
+            Ok(n) => n,
+            Err(e) => {
+                println!("MACHINERY-ERROR cannot parse net: {}", e);
+                return 2;
+            }
+        };
+        let mut st = Stats::new();
+        check_edge_oriented(&net, &mut st);
+        for (k, g) in st.violations.iter() {
+            println!("REPLAY-VIOLATION {} {}", k, g.detail);
+        }
+        println!("replay: {} violated clauses over {} edge pairs", st.violations.len(), st.evaluations);
+        return if st.violations.is_empty() { 0 } else { 1 };
+    }
     let c: Case = match serde_json::from_value(case["case"].clone()) {
         Ok(c) => c,
         Err(e) => {
